@@ -155,9 +155,20 @@ func (p *Parser) parseHeader(data []byte) (header *parser.PacketHeader, buf []by
 		end := start + 1
 		found = false
 
+		escaped := false
 		for ; end < len(data); end++ {
 			c := data[end]
-			if c == '"' && data[end-1] != '\\' {
+			// A quote ends the string unless it is escaped. A backslash that is
+			// itself escaped (an event name ending with a backslash) doesn't escape the quote.
+			if escaped {
+				escaped = false
+				continue
+			}
+			if c == '\\' {
+				escaped = true
+				continue
+			}
+			if c == '"' {
 				b := data[start : end+1]
 
 				tmp = make([]byte, len(b)+2)
